@@ -427,17 +427,24 @@ namespace Pistache::Http::Experimental
         }
         else
         {
-            Guard guard(timeoutsLock);
-            auto timerIt = timeouts.find(fd);
-            if (timerIt != std::end(timeouts))
+            // Look the connection up and forget the timer under the lock, but
+            // run the time-out handling outside of it: it completes the request,
+            // which may start the next queued one on this very thread, and
+            // starting a request with a time-out takes timeoutsLock again (and
+            // may register this same, recycled, timer fd).
+            std::shared_ptr<Connection> connection;
             {
-                auto connection = timerIt->second.lock();
-                if (connection)
+                Guard guard(timeoutsLock);
+                auto timerIt = timeouts.find(fd);
+                if (timerIt != std::end(timeouts))
                 {
-                    connection->handleTimeout();
-                    timeouts.erase(fd);
+                    connection = timerIt->second.lock();
+                    if (connection)
+                        timeouts.erase(timerIt);
                 }
             }
+            if (connection)
+                connection->handleTimeout();
         }
     }
 
